@@ -532,7 +532,7 @@ pub fn run(tier: &str) -> i32 {
         if sbin.is_empty() {
             rep.set("instrumented_exploration", json!({"ran": false, "generator": info, "note": "nothing to instrument (no std::sync / thread_local! / std::thread use in /repo/src) or the instrumented copy did not compile; either way this is not a verdict - between two API calls there is then no scheduling point a scheduler could own"}));
         } else {
-            let groups_s = ["two-threads/identical", "two-threads/other-flop-same-ranges", "two-threads/near-flops", "three-threads", "moved-between-threads", "shared-through-arc"];
+            let groups_s = ["two-threads/identical", "two-threads/three-players", "two-threads/other-flop-same-ranges", "two-threads/near-flops", "three-threads", "moved-between-threads", "shared-through-arc"];
             let mut results = vec![];
             let mut total = 0u64;
             let deadline = std::time::Instant::now() + std::time::Duration::from_secs(if thorough { 1200 } else { 150 });
